@@ -109,6 +109,73 @@ class FnView:
                 out |= self._mutref_targets(op_local(rv[2]), seen)
         return out
 
+    def points_to(self, l):
+        """Locals whose memory the reference / iterator / container-of-references held in local `l` may point into
+        (flow-insensitive, through refs, copies, casts, projections and *any* call that returns a reference-carrying value)."""
+        if not hasattr(self, "_pts"):
+            self._compute_pts()
+        return self._pts.get(l, set())
+
+    def _refy(self, l):
+        ty = self.locals[l]["ty"]
+        return "&" in ty or "*mut" in ty or "*const" in ty or "Iter" in ty or "iter::" in ty
+
+    def _compute_pts(self):
+        pts = {}
+        changed = True
+
+        def add(l, s_):
+            nonlocal changed
+            if not s_ or not self._refy(l):
+                return
+            cur = pts.setdefault(l, set())
+            if not s_ <= cur:
+                cur |= s_
+                changed = True
+
+        rounds = 0
+        while changed and rounds < 30:
+            changed = False
+            rounds += 1
+            for b in self.blocks:
+                for s in b["s"]:
+                    if s[0] != "=":
+                        continue
+                    dst = s[1][0]
+                    rv = s[2]
+                    if rv[0] in ("ref", "rawptr"):
+                        base, proj = rv[2]
+                        if proj and proj[0] == "*":
+                            add(dst, pts.get(base, set()))
+                            if 1 <= base <= self.nargs:
+                                add(dst, {base})
+                        else:
+                            add(dst, {base})
+                    elif rv[0] == "use" and rv[1][0] in ("c", "m"):
+                        add(dst, pts.get(rv[1][1][0], set()))
+                    elif rv[0] == "cast" and rv[2][0] in ("c", "m"):
+                        add(dst, pts.get(rv[2][1][0], set()))
+                    elif rv[0] == "agg":
+                        for o in rv[2]:
+                            if o[0] in ("c", "m"):
+                                add(dst, pts.get(o[1][0], set()))
+                t = b.get("t")
+                if t and t["k"] == "call":
+                    dst = t["dest"][0]
+                    if self._refy(dst):
+                        for a in t["args"]:
+                            if a[0] in ("c", "m"):
+                                direct = pts.get(a[1][0], set())
+                                add(dst, direct)
+                                # what the pointees themselves point into (e.g. next(&mut iter) yields refs into iter's source)
+                                for x in list(direct):
+                                    add(dst, pts.get(x, set()))
+        self._pts = pts
+
+    def mut_targets(self, l):
+        """locals that a store through `l` (a &mut, raw pointer, or a reference obtained from an iterator) may modify"""
+        return self._mutref_targets(l, set()) | self.points_to(l)
+
     def succ(self, bi):
         """normal successors [(target, label)]"""
         t = self.blocks[bi].get("t")
